@@ -55,10 +55,11 @@ type Profile struct {
 	ShortExp      bool // expiries of 1-40 simulated seconds (C14) instead of far-away ones
 	ViewBodies    bool // bodies rich in the properties the view / query families look at
 	JSONOnly      bool // no raw bodies (queries that address body properties need JSON)
+	FaultPct      int  // percent of the on-disk runs that get injected disk faults
 }
 
 var profiles = map[string]Profile{
-	"C01": {Name: "C01", W: baseWeights(4).with("Purge", 2, "Backfill", 1, "Reopen", 1), MinOps: 6, MaxOps: 32, MaxKeys: 3, MaxColl: 1, SmallDoc: 15, OnDiskPct: 20, ReopenPct: 50, ExpPct: 30},
+	"C01": {Name: "C01", FaultPct: 50, W: baseWeights(4).with("Purge", 2, "Backfill", 1, "Reopen", 1), MinOps: 6, MaxOps: 32, MaxKeys: 3, MaxColl: 1, SmallDoc: 15, OnDiskPct: 20, ReopenPct: 50, ExpPct: 30},
 	"C02": {Name: "C02", W: weights{"Set": 3, "Add": 2, "Delete": 3, "WriteCas": 10, "Remove": 6, "WriteWithXattrs": 6, "WriteTombstoneWithXattrs": 5,
 		"UpdateXattrs": 5, "RemoveXattrs": 4, "SetWithMeta": 4, "DeleteWithMeta": 3, "WriteSubDoc": 4, "SubdocInsert": 3, "SetXattrs": 2, "Update": 2,
 		"WriteResurrectionWithXattrs": 2, "DeleteWithXattrs": 1, "Purge": 1}, MinOps: 6, MaxOps: 28, MaxKeys: 2, MaxColl: 1, OnDiskPct: 10, ExpPct: 10},
@@ -69,12 +70,12 @@ var profiles = map[string]Profile{
 	"C06": {Name: "C06", W: weights{"Set": 4, "SetRaw": 1, "Add": 8, "AddRaw": 4, "Delete": 6, "Remove": 3, "Update": 5, "DeleteWithXattrs": 4,
 		"WriteTombstoneWithXattrs": 4, "DeleteWithMeta": 3, "SetWithMeta": 2, "WriteCas": 10, "WriteResurrectionWithXattrs": 6, "WriteWithXattrs": 6,
 		"UpdateXattrs": 3, "SetXattrs": 3, "Incr": 2, "WriteSubDoc": 2, "WriteUpdateWithXattrs": 2, "Purge": 3}, MinOps: 6, MaxOps: 30, MaxKeys: 2, MaxColl: 1, OnDiskPct: 10, ExpPct: 10},
-	"C07": {Name: "C07", W: weights{"Set": 3, "SetRaw": 2, "Add": 1, "Delete": 2, "WriteCas": 3, "Update": 2, "Incr": 1, "Touch": 1, "SetXattrs": 7, "UpdateXattrs": 7,
+	"C07": {Name: "C07", FaultPct: 50, W: weights{"Set": 3, "SetRaw": 2, "Add": 1, "Delete": 2, "WriteCas": 3, "Update": 2, "Incr": 1, "Touch": 1, "SetXattrs": 7, "UpdateXattrs": 7,
 		"RemoveXattrs": 6, "DeleteSubDocPaths": 6, "WriteWithXattrs": 9, "WriteTombstoneWithXattrs": 6, "WriteResurrectionWithXattrs": 5,
 		"WriteUpdateWithXattrs": 6, "DeleteWithXattrs": 4, "WriteSubDoc": 1, "Backfill": 1}, MinOps: 6, MaxOps: 30, MaxKeys: 2, MaxColl: 1, SmallDoc: 25, OnDiskPct: 10, ExpPct: 30},
-	"C08": {Name: "C08", W: baseWeights(4).with("Purge", 1), MinOps: 6, MaxOps: 30, MaxKeys: 3, MaxColl: 2, SmallDoc: 10, OnDiskPct: 10, ExpPct: 30},
+	"C08": {Name: "C08", FaultPct: 50, W: baseWeights(4).with("Purge", 1), MinOps: 6, MaxOps: 30, MaxKeys: 3, MaxColl: 2, SmallDoc: 10, OnDiskPct: 10, ExpPct: 30},
 	"C09": {Name: "C09", W: baseWeights(3).with("Backfill", 14, "Purge", 1), MinOps: 6, MaxOps: 26, MaxKeys: 4, MaxColl: 2, OnDiskPct: 15, ExpPct: 30},
-	"C11": {Name: "C11", W: baseWeights(4).with("Purge", 2, "Backfill", 1, "Touch", 10, "GetAndTouchRaw", 6, "RecreateColl", 5, "PutDDoc", 3, "View", 6, "Query", 5), MinOps: 8, MaxOps: 30, MaxKeys: 2, MaxColl: 3, ReadAll: true, TwoBucketsPct: 50, OnDiskPct: 15, ExpPct: 40},
+	"C11": {Name: "C11", FaultPct: 50, W: baseWeights(4).with("Purge", 2, "Backfill", 1, "Touch", 10, "GetAndTouchRaw", 6, "RecreateColl", 5, "PutDDoc", 3, "View", 6, "Query", 5), MinOps: 8, MaxOps: 30, MaxKeys: 2, MaxColl: 3, ReadAll: true, TwoBucketsPct: 50, OnDiskPct: 15, ExpPct: 40},
 	"C12": {Name: "C12", W: weights{"Set": 10, "SetRaw": 2, "Add": 3, "Delete": 4, "Remove": 1, "WriteCas": 4, "Update": 3, "Incr": 2, "SetXattrs": 4, "UpdateXattrs": 2,
 		"WriteWithXattrs": 4, "WriteTombstoneWithXattrs": 3, "WriteResurrectionWithXattrs": 2, "DeleteWithXattrs": 2, "WriteUpdateWithXattrs": 2, "WriteSubDoc": 2,
 		"Touch": 1, "Purge": 2, "SetWithMeta": 2, "DeleteWithMeta": 1, "PutDDoc": 5, "DelDDoc": 1, "View": 22, "Reopen": 1}, MinOps: 8, MaxOps: 30, MaxKeys: 4, MaxColl: 2, OnDiskPct: 20, ReopenPct: 50, ExpPct: 5, ViewBodies: true},
@@ -606,6 +607,13 @@ func GenE1(prop string, seed uint64) *Program {
 		}
 	}
 	n := p.MinOps + r.Intn(p.MaxOps-p.MinOps+1)
+	if prog.OnDisk && p.FaultPct > 0 && r.Chance(p.FaultPct) {
+		// separate fault-injecting configuration: 1-3 one-shot disk faults inside operations
+		for i := 0; i < 1+r.Intn(3); i++ {
+			kind := []int{1, 1, 2, 4, 4, 3}[r.Intn(6)]
+			prog.Faults = append(prog.Faults, FaultSpec{AtOp: r.Intn(n), Kind: kind, Offset: r.Intn(5)})
+		}
+	}
 	for i := 0; i < n; i++ {
 		t := r.Intn(total)
 		for _, k := range kinds {
